@@ -1,4 +1,7 @@
 #!/bin/sh
 # Runs every behaviour-preserving change in benign/ against every check; any ALARM is a false alarm to investigate.
+# usage: tools/benign_matrix.sh [-j N] [checks...]   (N diffs in parallel, default 3; output grouped per diff)
 cd "$(dirname "$0")/.."
-for f in benign/*.diff; do echo "=== $f"; tools/try_benign.sh "$f" "$@" 2>&1 | grep -vE "^C[0-9]+ silent *$"; done
+J=3
+if [ "$1" = "-j" ]; then J="$2"; shift 2; fi
+ls benign/*.diff | xargs -P "$J" -I{} sh -c 'OUT=$(tools/try_benign.sh {} '"$*"' 2>&1 | grep -vE "^C[0-9]+ silent *$"); printf "=== %s\n%s\n" "{}" "$OUT"'
